@@ -45,6 +45,10 @@ type scenario struct {
 	// Outcome scripted for the base executor.
 	Code        int32    `json:"code"` // gRPC status code of the base response
 	ErrorFirst  bool     `json:"error_first"`
+	// ExplicitOK: a successful base executor reports success as an
+	// explicit status with code OK instead of leaving the status unset
+	// (the two mean the same; both occur on the wire).
+	ExplicitOK bool `json:"explicit_ok,omitempty"`
 	ExitCode    int32    `json:"exit_code"`
 	StopOnError bool     `json:"stop_on_error"`
 	Uploads     []upload `json:"uploads"`
@@ -93,6 +97,7 @@ func genScenarioWith(rt *rapid.T, maxUploads int, reuse []string) scenario {
 	// practice but common here.
 	sc.Code = int32(rapid.SampledFrom([]codes.Code{codes.OK, codes.OK, codes.OK, codes.OK, codes.DeadlineExceeded, codes.Internal, codes.InvalidArgument}).Draw(rt, "code"))
 	sc.ExitCode = rapid.SampledFrom([]int32{0, 0, 0, 0, 1, 2, -1, 255}).Draw(rt, "exit_code")
+	sc.ExplicitOK = rapid.IntRange(0, 3).Draw(rt, "explicit_ok") == 0
 
 	n := rapid.IntRange(0, maxUploads).Draw(rt, "n_uploads")
 	haveStdout, haveStderr := false, false
@@ -202,6 +207,9 @@ func (be *scriptedExecutor) Execute(ctx context.Context, filePool pool.FilePool,
 	be.baseStatus = proto.Clone(response.Status).(*status_pb.Status)
 	if response.Status == nil {
 		be.baseStatus = nil
+		if sc.ExplicitOK {
+			response.Status = &status_pb.Status{Code: int32(codes.OK)}
+		}
 	}
 	return response
 }
